@@ -220,6 +220,21 @@ def run(ctx):
                               note=note, nonempty=[c for c in statcols if not (pd.isnull(st.at[rid, c]) or st.at[rid, c] == '')][:4])
                 elif k is None:
                     ctx.check(not str(st.at[rid, 'Analysis Notes']).startswith('ERROR'), 'healthy-row-rendered-as-error', cid, row=i)
+            # the same results rendered into the table with its rows in another order: every cell stays under its own row
+            # identifier (results are addressed by identifier, not by position)
+            if len(rows) >= 2:
+                st2 = stab.iloc[::-1].copy()
+                with warnings.catch_warnings():
+                    warnings.simplefilter('ignore')
+                    ob = core.attempt(E.add_samples_stats, st2, res)
+                if ctx.check(not ob.raised, 'exception-escapes-statistics', cid, reordered=True,
+                             exc=core.tb_str(ob.exc)[-300:] if ob.raised else None):
+                    def same_cell(a, b):
+                        return (pd.isnull(a) and pd.isnull(b)) if (pd.isnull(a) or pd.isnull(b)) else (a == b or str(a) == str(b))
+                    bad = [(rid, c) for rid in st.index for c in st.columns
+                           if c in st2.columns and not same_cell(st.at[rid, c], st2.at[rid, c])]
+                    ctx.check(not bad and list(st2.index) == list(stab.index[::-1]), 'rendering-depends-on-row-order', cid,
+                              first=[(r_, c_, repr(st.at[r_, c_]), repr(st2.at[r_, c_])) for r_, c_ in bad[:3]], **d)
             with warnings.catch_warnings():
                 warnings.simplefilter('ignore')
                 oh = core.attempt(E.generate_histograms_table, st, res)
